@@ -30,6 +30,11 @@ def checkAgainstTable (e : C03.Env) : List String :=
       | some f =>
         let p := f.prime
         let cv := curveOf p c
+        -- the consistency predicates the kernel evaluates on the table, evaluated here on the selected entry: a violated table theorem
+        -- then also has a concrete failing line (the identifier)
+        (if curveOk p c then [] else ["the selected set violates curveOk (canonical generator on the curve, r*G = O, Hasse window, unique multiple, discriminant)"]) ++
+        (if c.pairf == "" || bnOk f c then [] else ["the selected set violates the pairing-family predicate (family, r(x), cofactor, embedding degree)"]) ++
+        (if fieldOk f then [] else ["the field of the selected set violates fieldOk"]) ++
         (if e.c.p == p then [] else ["p differs from the table"]) ++
         (if e.c.a == cv.a then [] else ["a differs from the table"]) ++
         (if e.c.b == cv.b then [] else ["b differs from the table"]) ++
